@@ -122,10 +122,36 @@ def gen_document(rng, path: str, *, hostile_ids: bool = False, stem_marker: floa
         pid = ident("kia")
         p.setId(pid)
         p.setConstant(True)
+        stale = rng.random() < 0.5
+        if stale:
+            p.setValue(round(rng.uniform(5.0, 9.0), 3))  # a value attribute that the initial assignment overrides
+            feats.add("initial_assignment_overrides_value_attribute")
+        base_formula = f"{rng.choice(params)} * 2 + 0.5"
+        chained = rng.random() < 0.5
+        if chained:
+            # a second assignment that depends on the first; the order of listOfInitialAssignments is free
+            p2 = m.createParameter()
+            p2.setId("kia2")
+            p2.setConstant(True)
+            if rng.random() < 0.5:
+                p2.setValue(0.125)
+            first = rng.random() < 0.5
+            if first:
+                ia2 = m.createInitialAssignment()
+                ia2.setSymbol("kia2")
+                ia2.setMath(_math(f"{pid} + 1.5"))
+                feats.add("dependent_initial_assignment_listed_first")
         ia = m.createInitialAssignment()
         ia.setSymbol(pid)
-        ia.setMath(_math(f"{rng.choice(params)} * 2 + 0.5"))
+        ia.setMath(_math(base_formula))
+        if chained and not first:
+            ia2 = m.createInitialAssignment()
+            ia2.setSymbol("kia2")
+            ia2.setMath(_math(f"{pid} + 1.5"))
         params.append(pid)
+        if chained:
+            params.append("kia2")
+            feats.add("chained_initial_assignments")
         feats.add("initial_assignment_parameter")
     if rng.random() < 0.3:
         tgt = rng.choice(species)
